@@ -10,6 +10,23 @@ from shelxfile.misc.misc import chunks, ParseParamError, ParseNumError, \
 if TYPE_CHECKING:
     from shelxfile import Shelxfile
     from shelxfile.atoms.atom import Atom
+
+
+def _fmt_number(value: Union[int, float]) -> str:
+    """
+    Text of a numeric parameter that reads back as the same number: integral values without
+    decimal point, no thousands separators, no loss of digits.
+
+    >>> _fmt_number(1200.0)
+    '1200'
+    >>> _fmt_number(1234567)
+    '1234567'
+    >>> _fmt_number(0.12)
+    '0.12'
+    """
+    value = float(value)
+    return str(int(value)) if value.is_integer() else repr(value)
+
 """
 SHELXL cards:
 
@@ -615,7 +632,7 @@ class SIZE(Command):
     def _as_text(self):
         # Print the values that are there, so that an incomplete SIZE instruction is not written as an empty line:
         values = [x for x in (self.dx, self.dy, self.dz) if x is not None]
-        return " ".join(["SIZE"] + ["{:,g}".format(x) for x in values])
+        return " ".join(["SIZE"] + [_fmt_number(x) for x in values])
 
     @property
     def max(self):
@@ -910,7 +927,7 @@ class ACTA(Command):
 
     def _as_str(self):
         if self.twotheta:
-            return f"ACTA {self.twotheta[0]:,g}"
+            return f"ACTA {_fmt_number(self.twotheta[0])}"
         else:
             return "ACTA"
 
@@ -1817,7 +1834,7 @@ class UNIT(Command):
         yield [x for x in self.values]
 
     def __repr__(self) -> str:
-        return "UNIT " + "  ".join(["{:,g}".format(x) for x in self.values])
+        return "UNIT " + "  ".join([_fmt_number(x) for x in self.values])
 
     def __str__(self) -> str:
         return self.__repr__()
